@@ -1455,7 +1455,14 @@ def op_derive(req):
     # The fresh value stands for the held one only if both write the same document: a held value that came
     # through a repr hop may be ==-equal to its recipe and still differ in something == ignores (WaitGate's
     # qid_shape), and then the derived values differ for a reason that is not a cached state.
-    out["comparable"] = _same_document(v, fresh)
+    # ... nor if the two store their arrays with different dtypes: a complex64 MatrixGate that came through a
+    # nested-list JSON document is complex128 now (accepted widening), and a derivation that computes in the
+    # stored precision (inverse / ** by eigendecomposition) then differs in the last digits while
+    # MatrixGate.__eq__ is exact.
+    same_storage = [d[1] for _, d in payload_of(v) if d[0] == "ndarray"] == \
+                   [d[1] for _, d in payload_of(fresh) if d[0] == "ndarray"]
+    out["same_storage"] = same_storage
+    out["comparable"] = same_storage and _same_document(v, fresh)
     out["verdict"] = compare(d, ref, "derive:" + method) if out["comparable"] else None
     return out
 
